@@ -12,3 +12,6 @@ import MdVerif.Props.C09Doc
 #print axioms MdVerif.Pipeline.C09_doc_leading
 #print axioms MdVerif.Pipeline.C09_doc_trailing_noCode
 #print axioms MdVerif.Pipeline.C09_doc_padding_noCode
+#print axioms MdVerif.Pipeline.C09_doc_trailing
+#print axioms MdVerif.Pipeline.C09_doc_padding
+#print axioms MdVerif.Pipeline.C09_noCodeLast_iff
